@@ -12,8 +12,11 @@ for f in sorted(glob.glob(out+'/demo/*.go')):
     head=open(f).read()[:3000]
     m=re.search(r'([\w./-]+/)?'+re.escape(os.path.basename(f)), head)
     if m and m.group(1): place=m.group(1).rstrip('/')
-    m=re.search(r"go test[^\n]*?-run[ =]+'?\"?([^'\"\s]+)'?\"?\s+([./\w-]+)", head)
-    if m: run,pkg=m.group(1),m.group(2)
+    for line in head.splitlines():
+        if 'go test' in line and '-run' in line:
+            m=re.search(r"-run[ =]+'?\"?([^'\"\s]+)", line)
+            pk=[t for t in line.split() if t.startswith('./')]
+            if m and pk: run,pkg=m.group(1),pk[-1]; break
     if place and run: break
 print(place or '?', pkg or '?', run or '?')
 PY
